@@ -318,7 +318,12 @@ func c06Cases(quick bool) []*c06Case {
 	add("discard/value-receiver", "@start s = a*! B\na = A\n", dS+"func (p *parser) on_a(t Token) D { return D{V: t.Idx} }\n\nfunc (p *parser) on_s(xs []D, b Token) int {\n\tvar want []D\n\tfor i := 100; i < b.Idx; i++ {\n\t\tif i%2 == 0 {\n\t\t\twant = append(want, D{V: i})\n\t\t}\n\t}\n\tp.expect(\"parameter of on_s for a*!\", any(xs), any(want))\n\treturn 1\n}\n", nil, true, 1)
 	dP := "type D struct{ V int }\n\nfunc (d *D) Discard() bool { return d.V%2 == 1 }\n\n"
 	add("discard/pointer-elements", "@start s = a*! B\na = A\n", dP+"func (p *parser) on_a(t Token) *D { return &D{V: t.Idx} }\n\nfunc (p *parser) on_s(xs []*D, b Token) int {\n\tn := 0\n\tfor i := 100; i < b.Idx; i++ {\n\t\tif i%2 == 0 {\n\t\t\tn++\n\t\t}\n\t}\n\tp.expect(\"number of elements delivered for a*!\", any(len(xs)), any(n))\n\treturn 1\n}\n", nil, true, 1)
-	add("discard/pointer-receiver-on-value", "@start s = a*! B\na = A\n", dP+"func (p *parser) on_a(t Token) D { return D{V: t.Idx} }\n\nfunc (p *parser) on_s(xs []D, b Token) int { return 1 }\n", nil, true, 0)
+	// elements delivered by value, Discard() on the pointer receiver: accepted (the
+	// generated code calls it on an addressable copy), so it must filter too
+	add("discard/pointer-receiver-on-value", "@start s = a*! B\na = A\n", dP+"func (p *parser) on_a(t Token) D { return D{V: t.Idx} }\n\nfunc (p *parser) on_s(xs []D, b Token) int {\n\tvar want []D\n\tfor i := 100; i < b.Idx; i++ {\n\t\tif i%2 == 0 {\n\t\t\twant = append(want, D{V: i})\n\t\t}\n\t}\n\tp.expect(\"parameter of on_s for a*! (Discard on the pointer receiver, elements by value)\", any(xs), any(want))\n\treturn 1\n}\n", nil, true, 1)
+	add("discard/pointer-receiver-on-value-named-slice", "@start s = a*! B\na = A\n", dP+"type DL []D\n\nfunc (p *parser) on_a(t Token) D { return D{V: t.Idx} }\n\nfunc (p *parser) on_s(xs DL, b Token) int {\n\tvar want DL\n\tfor i := 100; i < b.Idx; i++ {\n\t\tif i%2 == 0 {\n\t\t\twant = append(want, D{V: i})\n\t\t}\n\t}\n\tp.expect(\"parameter of on_s for a*!\", any(xs), any(want))\n\treturn 1\n}\n", nil, true, 1)
+	// elements that are interface values holding pointers / values
+	add("discard/interface-elements", "@start s = a*! B\na = A\n", dP+"type DI interface{ Discard() bool }\n\nfunc (p *parser) on_a(t Token) DI { return &D{V: t.Idx} }\n\nfunc (p *parser) on_s(xs []DI, b Token) int {\n\tn := 0\n\tfor i := 100; i < b.Idx; i++ {\n\t\tif i%2 == 0 {\n\t\t\tn++\n\t\t}\n\t}\n\tp.expect(\"number of elements delivered for a*! (interface elements)\", any(len(xs)), any(n))\n\treturn 1\n}\n", nil, true, 1)
 	add("discard/no-method", "@start s = a*! B\na = A\n", "func (p *parser) on_a(t Token) S { return S{V: 7} }\n\nfunc (p *parser) on_s(xs []S, b Token) int { return 1 }\n", nil, false, 0)
 	add("discard/wrong-signature", "@start s = a*! B\na = A\n", "type D struct{ V int }\n\nfunc (d D) Discard() int { return 0 }\n\nfunc (p *parser) on_a(t Token) D { return D{} }\n\nfunc (p *parser) on_s(xs []D, b Token) int { return 1 }\n", nil, false, 0)
 	add("discard/token-without-method", "@start s = A*! B\n", "func (p *parser) on_s(xs []Token, b Token) int { return 1 }\n", nil, false, 0)
